@@ -220,4 +220,128 @@ theorem css_url_closed : type_of% @Verif.Proofs.C09Css.css_url_closed := @Verif.
 theorem css_string_closed_partial : type_of% @Verif.Proofs.C09Css.css_string_closed_partial :=
   @Verif.Proofs.C09Css.css_string_closed_partial
 
+/-! ## HTML -/
+
+/-- **HTML attribute values**: the bytes of `EscapeAttrVal` are read by the standard's tokenizer as one value in the form
+    chosen, ending where the bytes end, decoding to the value meant; unquoted only when conforming -/
+theorem html_attr_value_roundtrip : type_of% @Verif.Proofs.C09Html.html_attr_value_roundtrip :=
+  @Verif.Proofs.C09Html.html_attr_value_roundtrip
+
+/-- **HTML `&` ambiguity**: what html.go does to the references of a plain attribute value, then `EscapeAttrVal`, is read
+    back as the input value — guard = C03's open findings K-C03-3 (hex overflow), K-C03-13 (CR + LF reference) -/
+theorem html_attr_written_value_partial : type_of% @Verif.Proofs.C09Html.html_attr_written_value_partial :=
+  @Verif.Proofs.C09Html.html_attr_written_value_partial
+
+/-- the guard is needed (K-C03-3) -/
+theorem html_attr_written_value_counterexample : type_of% @Verif.Proofs.C09Html.html_attr_written_value_counterexample :=
+  @Verif.Proofs.C09Html.html_attr_written_value_counterexample
+
+/-- **HTML start tags**: `<name` + the attributes the model writes + `>` is read as ONE start tag with the attribute list
+    meant (names in order, values decoding to the values handed to `EscapeAttrVal`), not self-closing, for every option
+    set and every attribute branch of html.go; guards: names without `/`, no template attributes -/
+theorem html_start_tag_retokenises : type_of% @Verif.Proofs.C09Html.html_start_tag_retokenises :=
+  @Verif.Proofs.C09Html.html_start_tag_retokenises
+
+/-- the same for one step of the token loop, hypotheses on the lexer's start-tag token only -/
+theorem html_start_tag_step : type_of% @Verif.Proofs.C09Html.html_start_tag_step :=
+  @Verif.Proofs.C09Html.html_start_tag_step
+
+/-- **HTML raw-text elements** (script, style, iframe, textarea): the content the model writes does not end the element
+    early and the end tag ends it; guard: no `<!--` in a script (K-C09-HTML-8); contract `SubKeeps` on the sub-minifier -/
+theorem html_rawtext_end_stable_partial : type_of% @Verif.Proofs.C09Html.html_rawtext_end_stable_partial :=
+  @Verif.Proofs.C09Html.html_rawtext_end_stable_partial
+
+/-- without the `<!--` guard it is false (script-data-double-escaped state) -/
+theorem html_rawtext_end_stable_counterexample : type_of% @Verif.Proofs.C09Html.html_rawtext_end_stable_counterexample :=
+  @Verif.Proofs.C09Html.html_rawtext_end_stable_counterexample
+
+/-- **HTML comments**: every comment written is one comment token; guard K-C09-HTML-1, contract K-C09-HTML-3 -/
+theorem html_comment_closed_partial : type_of% @Verif.Proofs.C09Html.html_comment_closed_partial :=
+  @Verif.Proofs.C09Html.html_comment_closed_partial
+
+/-- `<!-->x-->` kept verbatim is not one comment (K-C09-HTML-1) -/
+theorem html_comment_closed_counterexample : type_of% @Verif.Proofs.C09Html.html_comment_closed_counterexample :=
+  @Verif.Proofs.C09Html.html_comment_closed_counterexample
+
+/-- **HTML, the whole output** (flagship): under the decidable guard `walk` (text pieces `textSafe`, comments `goodComment`,
+    good tag/attribute names, no template/svg/math token, raw-text content without its end tag and without `<!--` in a
+    script) the output of the model is the concatenation of its per-token pieces and re-tokenises, by the HTML standard,
+    to exactly what each piece is on its own — for every option set, sub-minifier and token stream -/
+theorem html_output_retokenises_partial : type_of% @Verif.Proofs.C09Html.html_output_retokenises_partial :=
+  @Verif.Proofs.C09Html.html_output_retokenises_partial
+
+/-- without the guard it is false: a removed comment between `<` and `b>` creates a tag (K-C09-HTML-4) -/
+theorem html_output_retokenises_counterexample : type_of% @Verif.Proofs.C09Html.html_output_retokenises_counterexample :=
+  @Verif.Proofs.C09Html.html_output_retokenises_counterexample
+
+/-- the same over the lexer grammar `lexShape` -/
+theorem html_output_retokenises_lexshape_counterexample :
+    type_of% @Verif.Proofs.C09Html.html_output_retokenises_lexshape_counterexample :=
+  @Verif.Proofs.C09Html.html_output_retokenises_lexshape_counterexample
+
+/-- **HTML text**: a text token without a raw `<` is written without `<` — `&lt;` / `&#60;` / `&#x3C;` / `&LT` stay escaped —
+    for all options (whole regenerated entity tables) -/
+theorem html_text_lt_stays_escaped : type_of% @Verif.Proofs.C09Html.html_text_lt_stays_escaped :=
+  @Verif.Proofs.C09Html.html_text_lt_stays_escaped
+
+/-- html.go's reference decoding creates a tag from the text `<&#98;>` (K-C09-HTML-10) -/
+theorem html_text_safe_not_preserved : type_of% @Verif.Proofs.C09Html.html_text_safe_not_preserved :=
+  @Verif.Proofs.C09Html.html_text_safe_not_preserved
+
+/-- **HTML second pass**: on every token stream the model returns bytes or `ext missing` -/
+theorem html_second_pass_defined : type_of% @Verif.Proofs.C09Html.html_second_pass_defined :=
+  @Verif.Proofs.C09Html.html_second_pass_defined
+
+/-- html.go is not idempotent (not a C09 violation) -/
+theorem html_idempotent_counterexample : type_of% @Verif.Proofs.C09Html.html_idempotent_counterexample :=
+  @Verif.Proofs.C09Html.html_idempotent_counterexample
+/-! ## JS -/
+
+/-- **JS, writer level**: for every token list of the C01 token alphabet without an impossible adjacency, the bytes
+    written by the writer model (`write`, `writeSpaceBeforeIdent`, `writeSpaceBefore`, `writeSpaceAfterIdent`,
+    `a-- >b`, `<! --`) lex back, with the independent lexer `Spec.C09JsLex`, to exactly these tokens -/
+theorem js_token_sep : type_of% @Verif.Proofs.C09Js.js_token_sep := @Verif.Proofs.C09Js.js_token_sep
+
+/-- **JS, grammar trees**: the terminal string of every derivation tree of the expression grammar (plain names and
+    strings) satisfies the hypotheses of `js_token_sep` -/
+theorem js_tree_tokens_safe : type_of% @Verif.Proofs.C09Js.js_tree_tokens_safe :=
+  @Verif.Proofs.C09Js.js_tree_tokens_safe
+
+/-- **JS, grammar trees**: hence what the writer produces for it is read back as exactly that terminal string -/
+theorem js_tree_relex : type_of% @Verif.Proofs.C09Js.js_tree_relex := @Verif.Proofs.C09Js.js_tree_relex
+
+/-- **JS, expression printer**: the output of the printer model `printT` (C01) is token-separated and derives the
+    printed tree in the independent grammar: valid, and re-lexed to the intended tokens -/
+theorem js_expr_relex : type_of% @Verif.Proofs.C09Js.js_expr_relex := @Verif.Proofs.C09Js.js_expr_relex
+
+/-- **JS, statement printer** (partial, guard = every printed expression tree is a grammar tree with plain names):
+    the bytes of the statement printer model are read back as exactly the tokens written -/
+theorem js_print_relex_partial : type_of% @Verif.Proofs.C09Js.js_print_relex_partial :=
+  @Verif.Proofs.C09Js.js_print_relex_partial
+
+/-- **JS inside HTML, writer level**: for every well-formed, goal-consistent token list of the C01 alphabet the bytes
+    of the JS writer model contain neither an appropriate end tag of `script` (no `</` at all) nor `<!--` -/
+theorem js_output_no_markup : type_of% @Verif.Proofs.C09JsEmbed.js_output_no_markup :=
+  @Verif.Proofs.C09JsEmbed.js_output_no_markup
+
+/-- **JS inside HTML, the contract discharged**: the JS fragment printer (any parser function, guarded statement
+    printer, pass-through otherwise) satisfies the contract `SubKeeps "script"` of the HTML minifier model -/
+theorem js_script_embed_keeps : type_of% @Verif.Proofs.C09JsEmbed.js_script_embed_keeps :=
+  @Verif.Proofs.C09JsEmbed.js_script_embed_keeps
+
+/-- **Embedded languages, composed**: an HTML `script` element whose payload is minified by the JS fragment printer is
+    read back by the HTML tokenizer as character tokens equal to the printer's output byte for byte, followed by the
+    element's end tag -/
+theorem html_script_with_js_fragment : type_of% @Verif.Proofs.C09JsEmbed.html_script_with_js_fragment :=
+  @Verif.Proofs.C09JsEmbed.html_script_with_js_fragment
+
+/-! ## embedded languages -/
+
+/-- **K-C09-3 on the model of the CSS declaration writer**: the value tokens `<` `/` `style` `>` — none contains `</style` —
+    are written `</style >`, an appropriate end tag of the enclosing HTML `style` element: the `SubKeeps` contract of
+    `html_rawtext_end_stable_partial` is false for the CSS writer (for the JS-fragment printer it is a theorem:
+    `js_script_embed_keeps`).  Real code: `<style>a{b:< /style >}</style><p>x</p>` ↦ `<style>a{b:</style >}</style><p>x`. -/
+theorem css_writer_creates_style_end_tag : type_of% @Verif.Proofs.C09Embed.css_writer_creates_style_end_tag :=
+  @Verif.Proofs.C09Embed.css_writer_creates_style_end_tag
+
 end Verif.Props.C09
